@@ -375,6 +375,19 @@ def run(ctx):
     exe_lex, lib = ctx.build_harness("lexer_replay", ["lexer_replay.cpp"])
     exe, lib = ctx.build_harness("exprprint_replay", ["exprprint_replay.cpp"])
     env = ctx.occa_env(lib)
+    if ctx.replay:
+        # re-execute a recorded case: OCCA parse -> print -> parse now, next to the recorded spec tree / value
+        recs = [json.loads(l) for l in open(ctx.replay) if l.strip()]
+        outs, crashes = vlib.run_replayer(ctx, exe, env, [{"mode": r.get("mode", "expr"), "text": r["text"]} for r in recs], timeout=600)
+        bad = len(crashes)
+        for i, r in enumerate(recs):
+            o = outs.get(i, {})
+            print("text   : %r\nspec   : %s\noutcome: %s" % (r["text"], json.dumps(r.get("spec_tree") or r.get("spec_value") or r.get("spec_env")), json.dumps(o)))
+            bad += 1 if (o.get("ok1") and (not o.get("ok2") or o.get("t1") != o.get("t2"))) else 0
+        print("REPLAY property=C15 cases=%d crashed_or_reparsed_differently=%d" % (len(recs), bad))
+        import shutil
+        shutil.rmtree(ctx.tmp, ignore_errors=True)
+        return 1 if bad else 0
     tladir, optable = c12.write_optable(ctx, exe_lex, env)
     jvm = ["-DTLA-Library=" + tladir]
 
